@@ -62,6 +62,17 @@ const (
 	rErrNoVal
 )
 
+// violate forwards an oracle violation to the run, at most 3 per id: emit keeps 50 violations in
+// all, and a listed known finding that fires in many histories must not crowd out a new one.
+var perID = map[string]int{}
+
+func violate(run *emit.Run, id, what string, replay any) {
+	perID[id]++
+	if perID[id] <= 3 {
+		run.Violate(id, what, replay)
+	}
+}
+
 type triple struct {
 	tid, body int
 	est       uint64 // effective (packed) estimate
@@ -186,11 +197,11 @@ func (h *hist) bodyID(b types.OutgoingTxBatch) int {
 func (h *hist) note(cp []byte, tr triple) {
 	hx := hex.EncodeToString(cp)
 	if old, ok := h.cpTriple[hx]; ok && old != tr {
-		h.run.Violate("C13:checkpoint-class-mismatch", "one checkpoint for two (deployment id, body, estimate) triples",
+		violate(h.run, "C13:checkpoint-class-mismatch", "one checkpoint for two (deployment id, body, estimate) triples",
 			map[string]any{"checkpoint": hx, "a": old.coq(), "b": tr.coq()})
 	}
 	if old, ok := h.tripleCp[tr]; ok && old != hx {
-		h.run.Violate("C13:checkpoint-class-mismatch", "two checkpoints for one (deployment id, body, estimate) triple",
+		violate(h.run, "C13:checkpoint-class-mismatch", "two checkpoints for one (deployment id, body, estimate) triple",
 			map[string]any{"triple": tr.coq(), "a": old, "b": hx})
 	}
 	h.cpTriple[hx] = tr
@@ -290,12 +301,12 @@ func (h *hist) oracle(after string) {
 			if !has(before, v) {
 				if h.afterGenesis && !h.issued[g.Cp] {
 					// published by the instance before the restart for a batch retired before the export
-					h.run.Violate("C13:retired-checkpoint-unprotected-after-genesis",
+					violate(h.run, "C13:retired-checkpoint-unprotected-after-genesis",
 						fmt.Sprintf("after a restart from an exported genesis validator %d is jailed by its own confirmation of a checkpoint the previous chain instance published (%s); the batch was retired before the export", v, g.Cp),
 						map[string]any{"kind": "evidence-history", "history": h.replay, "after": after, "evidence": g, "class": class})
 					continue
 				}
-				h.run.Violate(h.vid("C13:honest-signer-jailed"),
+				violate(h.run, h.vid("C13:honest-signer-jailed"),
 					fmt.Sprintf("validator %d jailed by bad-signature evidence made of its own confirmation of a checkpoint the chain published (%s)", v, g.Cp),
 					map[string]any{"kind": "evidence-history", "history": h.replay, "after": after, "evidence": g, "class": class})
 			}
@@ -304,7 +315,7 @@ func (h *hist) oracle(after string) {
 	for cp := range h.issued {
 		b, _ := hex.DecodeString(cp)
 		if !h.in.SkywayKeeper.GetPastEthSignatureCheckpoint(h.ctx, b) {
-			h.run.Violate(h.vid("C13:issued-checkpoint-not-archived"), "a checkpoint published for signing (stored BytesToSign or served by a batch query) is not in the archive ("+cp+")",
+			violate(h.run, h.vid("C13:issued-checkpoint-not-archived"), "a checkpoint published for signing (stored BytesToSign or served by a batch query) is not in the archive ("+cp+")",
 				map[string]any{"kind": "evidence-history", "history": h.replay, "after": after, "checkpoint": cp})
 		}
 	}
@@ -323,7 +334,7 @@ func (h *hist) served(how string, b types.OutgoingTxBatch, after string) {
 			tr = triple{h.tidID(tid), h.bodyID(b), effEst(b.GasEstimate)}
 			h.note(b.BytesToSign, tr)
 		} else {
-			h.run.Violate("C13:query-serves-unknown-bytes", how+" serves BytesToSign that is no checkpoint the harness can account for ("+hx+")",
+			violate(h.run, "C13:query-serves-unknown-bytes", how+" serves BytesToSign that is no checkpoint the harness can account for ("+hx+")",
 				map[string]any{"kind": "evidence-history", "history": h.replay, "after": after, "query": how, "batch": b})
 			return
 		}
@@ -449,7 +460,7 @@ func (h *hist) publish(nonce uint64) {
 	ext := b.ToExternal()
 	tid, found := h.checkpointTid(ext, hx)
 	if !found {
-		h.run.Violate("C13:bytes-to-sign-not-checkpoint", "stored BytesToSign is not the batch's checkpoint under the current deployment id",
+		violate(h.run, "C13:bytes-to-sign-not-checkpoint", "stored BytesToSign is not the batch's checkpoint under the current deployment id",
 			map[string]any{"kind": "evidence-history", "history": h.replay, "nonce": nonce, "bytes_to_sign": hx})
 		return
 	}
@@ -1065,7 +1076,7 @@ func (h *hist) opEvidence() {
 		if !has(before, v) {
 			h.sawJail = true
 			if h.issued[hex.EncodeToString(scp)] {
-				h.run.Violate(h.vid("C13:jailed-for-issued-checkpoint"),
+				violate(h.run, h.vid("C13:jailed-for-issued-checkpoint"),
 					fmt.Sprintf("validator %d jailed by evidence whose checkpoint the chain had published", v),
 					map[string]any{"kind": "evidence-history", "history": h.replay, "subject": subj, "signature": sig})
 			}
